@@ -79,7 +79,7 @@ def pos_msg(rng, ac, parity=None):
     if ac.surface:
         me = cpr.me_surface(rng.choice((5, 6, 7, 8)), rng.randrange(128), rng.randrange(2), rng.randrange(128), 0, i, yz, xz)
     else:
-        me = cpr.me_airborne(rng.choice((9, 11, 13, 18)), rng.randrange(4), 0, ralt_q(rng), 0, i, yz, xz)
+        me = cpr.me_airborne(rng.choice((9, 11, 13, 18)), rng.randrange(4), 0, ralt_q(rng) if rng.random() > 0.04 else 0, 0, i, yz, xz)
     return "%028X" % bits.es_frame(ac.df, 5, ac.addr, me)
 
 
@@ -227,6 +227,13 @@ def gen_history(rng, scen_name=None, window=False):
             events.append((t, "adsb", m, a.addr, ("pos", a.lat, a.lon, a.surface, a.tainted, a.scen)))
         elif r < 0.78:
             events.append((t, "adsb", other_adsb(rng, a), a.addr, None))
+            if rng.random() < 0.12:
+                # the same aircraft heard twice with the SAME stamp (two receivers, a coarse clock): two velocity squitters, one
+                # of them with "no vertical rate information"
+                for vr_ in rng.sample((0, rng.randrange(1, 512)), 2):
+                    me = radsb.tc19(1, rng.randrange(2), rng.randrange(1, 1024), rng.randrange(2), rng.randrange(1, 1024), rng.randrange(2),
+                                    rng.randrange(2), vr_, rng.randrange(2), rng.randrange(128))
+                    events.append((t, "adsb", "%028X" % bits.es_frame(a.df, 5, a.addr, me), a.addr, None))
         elif r < 0.90:
             events.append((t, "commb", commb_msg(rng, a.addr), a.addr, None))
         elif r < 0.95 and noise:
@@ -440,7 +447,7 @@ def m_history(ctx, case):
     if case.get("batch"):
         hist["batch"] = case["batch"]
     hist["decoy"] = (case["hseed"] % 4 == 1)
-    hist["dumpto"] = (case["hseed"] % 10 == 3)   # one history in ten also writes the CSV dump (robustness of that path)
+    hist["dumpto"] = (case["hseed"] % 4 == 3)   # one history in ten also writes the CSV dump (robustness of that path)
     ev = hist["events"]
     gaps = [b[0] - a[0] for a, b in zip(ev, ev[1:])]
     for g in gaps:
